@@ -122,7 +122,9 @@ func main() {
 				kind = "malformed"
 			}
 			n := r.Range(4, 14)
-			for j := 0; j < n; j++ {
+			// start with a create, so that there is something to link
+			g.Last = record(g.Op(fw.Mix{1, 0, 0, 0, 0, 0, 0, 0}))
+			for j := 1; j < n; j++ {
 				g.Last = record(g.Op(mix))
 			}
 		}
